@@ -402,6 +402,10 @@ def Proc.deliver {G : Type} (c : Crypto G) (env : Env) (pr : Proc G) (w : Wire G
 def Proc.init {G : Type} (c : Crypto G) (env : Env) (future : List (VMsg G)) : Proc G :=
   settle { party := enter c env [] future, inManager := true, done := false, stray := [], ending := none }
 
+/-- The same with the message ids round0 had already processed (the cast message's id). -/
+def Proc.initWith {G : Type} (c : Crypto G) (env : Env) (processed : List MsgId) (future : List (VMsg G)) : Proc G :=
+  settle { party := enter c env processed future, inManager := true, done := false, stray := [], ending := none }
+
 def Proc.run {G : Type} (c : Crypto G) (env : Env) (pr : Proc G) : List (Wire G) → Proc G
   | [] => pr
   | w :: ws => Proc.run c env (pr.deliver c env w).1 ws
